@@ -60,10 +60,12 @@ def gen(run):
         hs = r.json
         out += [("single3", h) for h in run.rng.sample(hs, min(len(hs), 2500))]
     else:
-        r = run.tlc("MCDocSync", cfg(["u1"], 2, 3, False, True, False, props=False), workers=8, timeout=3000,
+        # open + one notification carrying two content changes, texts <= 2 symbols: 152 695 states (measured, 7 s); a third
+        # notification multiplies that by ~78 000 and does not finish, a third symbol gives 1.28 million histories
+        r = run.tlc("MCDocSync", cfg(["u1"], 2, 2, False, True, False, props=False), workers=8, timeout=3000,
                     extra_modules={"MCDocSync": MC})
         hs = r.json
-        out += [("double2", h) for h in run.rng.sample(hs, min(len(hs), 40000))]
+        out += [("double2", h) for h in run.rng.sample(hs, min(len(hs), 60000))]
     for (maxlen, depth, num) in ([(4, 8, 300)] if not thorough else [(4, 8, 4000), (6, 10, 1500)]):
         r = run.tlc("MCDocSync", cfg(["u1", "u2"], maxlen, depth, False, True, True, props=False), mode="simulate",
                     simulate=num, depth=depth + 1, workers=1, timeout=2400, extra_modules={"MCDocSync": MC})
